@@ -143,3 +143,102 @@ let run (id : string) (ops : string list) (out : out_channel) =
     | _ -> failwith ("ltcp op: " ^ op)) ops
 
 let registered = Registry.register "Ltcp" run
+
+(* ---- extraction cross-check inside Coq (see c18.ml): every model call this glue makes for the ops of a
+   sampled case (decode with NextLayerType through the case's dispatch table and the renderer tests,
+   serialize, verify_csum), restated as a Gallina term with the same model variant (LTCP_MODEL) and
+   recomputed by vm_compute, must give the value the extracted code computed here. *)
+let coq_info (i : mpinfo) = match i with
+  | MPnone -> "MPnone"
+  | MPCapable (v, f, sk, rk, dl, cs) -> Printf.sprintf "(MPCapable %s %s %s %s %s %s)" (coq_z v) (coq_z f) (coq_zlist sk) (coq_zlist rk) (coq_z dl) (coq_z cs)
+  | MPJoin (b, a, rt, sr, hm) -> Printf.sprintf "(MPJoin %s %s %s %s %s)" (coq_bool b) (coq_z a) (coq_z rt) (coq_z sr) (coq_zlist hm)
+  | MPDss (f, ack, dsn, ssn, dl, cs) -> Printf.sprintf "(MPDss %s %s %s %s %s %s)" (coq_z f) (coq_zlist ack) (coq_zlist dsn) (coq_z ssn) (coq_z dl) (coq_z cs)
+  | MPAddAddr (v, e, a, addr, port, hm) -> Printf.sprintf "(MPAddAddr %s %s %s %s %s %s)" (coq_z v) (coq_bool e) (coq_z a) (coq_zlist addr) (coq_z port) (coq_zlist hm)
+  | MPRemAddr ids -> "(MPRemAddr " ^ coq_zlist ids ^ ")"
+  | MPPrio (b, a) -> Printf.sprintf "(MPPrio %s %s)" (coq_bool b) (coq_z a)
+  | MPFail d -> "(MPFail " ^ coq_z d ^ ")"
+  | MPFClose k -> "(MPFClose " ^ coq_zlist k ^ ")"
+  | MPRst (f, r) -> Printf.sprintf "(MPRst %s %s)" (coq_z f) (coq_z r)
+let coq_opt (o : tcpopt) =
+  Printf.sprintf "Build_tcpopt %s %s %s %s %s" (coq_z o.o_type) (coq_z o.o_len) (coq_zlist o.o_data) (coq_z o.o_mp) (coq_info o.o_info)
+let coq_tcp (t : tcp) =
+  Printf.sprintf "(Build_tcp %s %s %s %s %s %s %s %s %s %s %s %s %s %s %s %s)" (coq_z t.t_sp) (coq_z t.t_dp) (coq_z t.t_seq) (coq_z t.t_ack)
+    (coq_z t.t_off) (coq_z t.t_flags) (coq_z t.t_win) (coq_z t.t_sum) (coq_z t.t_urg) (coq_zlist t.t_sport) (coq_zlist t.t_dport)
+    (coq_list coq_opt t.t_opts) (coq_zlist t.t_pad) (coq_bool t.t_mp) (coq_zlist t.t_contents) (coq_zlist t.t_payload)
+let dec_name = if orig then "decode_into_orig" else "decode_into"
+let render_name = if orig then "render_panics_orig" else "render_panics"
+
+let to_coq (idx : int) (ops : string list) (out : out_channel) =
+  let n = ref 0 and tb = ref None and cur = ref tcp0 in
+  let name () = incr n; Printf.sprintf "sample_%d_%d" idx !n in
+  let small h = String.length h <= 300 in
+  let zint k = z_of_int k in
+  (* the dispatch table of the case as a Gallina function (first matching entry, else the payload id) *)
+  let next_term () = match !tb with
+    | None -> None
+    | Some (pid, l) ->
+      Some (Printf.sprintf "next_layer_type (fun z => match find (fun e => (fst e =? z)%%Z) %s with Some e => snd e | None => %s end) %s"
+              (coq_list (fun (p, q) -> Printf.sprintf "(%s, %s)" (coq_z (zint p)) (coq_z (zint q))) l) (coq_z (zint pid)) (coq_z (zint pid)),
+            (fun t -> let f z = z_of_int (try Stdlib.List.assoc (zi z) l with Not_found -> pid) in next_layer_type f (z_of_int pid) t)) in
+  let ex_dec (olds : string) (old : tcp) (d : BinNums.coq_Z list) (ex : BinNums.coq_Z list) =
+    let ((t, tr), o) = decode old d ex in
+    let (nl, nr) = match next_term () with
+      | Some (term, f) -> (Printf.sprintf ", %s (fst (fst r))" term, ", " ^ coq_z (f t))
+      | None -> ("", "") in
+    coq_example_named out (name ())
+      (Printf.sprintf "(let r := %s %s %s %s in (r, %s (fst (fst r))%s))" dec_name olds (coq_zlist d) (coq_zlist ex) render_name nl)
+      (Printf.sprintf "(%s, %s, %s, %s%s)" (coq_tcp t) (coq_bool tr) (coq_outcome coq_unit o) (coq_pair coq_bool coq_bool (render t)) nr);
+    ((t, tr), o) in
+  let ph_term (s : string) : string =
+    if s = "-" || s = "" then "None" else
+    let body = String.sub s 1 (String.length s - 1) in
+    let k = String.length body / 2 in
+    Printf.sprintf "(Some (%s %s %s))" (if s.[0] = '4' then "ph4" else "ph6") (coq_zlist (bytes_of_hex (String.sub body 0 k))) (coq_zlist (bytes_of_hex (String.sub body k k))) in
+  let ex_ser (t : tcp) (pl : BinNums.coq_Z list) (fx : bool) (cs : bool) (ph : string) (junk1 : bool) =
+    let r = serialize t pl fx cs (parse_ph ph) (if junk1 then repeat_z (z_of_int 0xaa) 4096 else []) in
+    coq_example_named out (name ())
+      (Printf.sprintf "serialize %s %s %s %s %s %s" (coq_tcp t) (coq_zlist pl) (coq_bool fx) (coq_bool cs) (ph_term ph)
+         (if junk1 then "(repeat 170%Z 4096%nat)" else "[]"))
+      (coq_pair (coq_outcome coq_zlist) coq_tcp r); r in
+  Stdlib.List.iter (fun op ->
+    let (nm, arg) = match String.index_opt op ':' with
+      | Some i -> (String.sub op 0 i, String.sub op (i + 1) (String.length op - i - 1))
+      | None -> (op, "") in
+    let args = split_on ',' arg in
+    if nm = "tbl" then (match args with
+      | pid :: rest -> tb := Some (int_of_string pid, Stdlib.List.filter_map (fun e ->
+          match split_on '=' e with [p; l] -> Some (int_of_string p, int_of_string l) | _ -> None) rest)
+      | _ -> ())
+    else if nm = "bld" then begin
+      let t = parse_bld arg in
+      cur := t;
+      if !n < 6 then coq_example_named out (name ()) (Printf.sprintf "%s %s" render_name (coq_tcp t)) (coq_pair coq_bool coq_bool (render t))
+    end
+    else if !n < 6 then
+    match nm, args with
+    | "dec", [h] when small h -> ignore (ex_dec "tcp0" tcp0 (bytes_of_hex h) [])
+    | "dec", [h; ex] when small h && small ex -> ignore (ex_dec "tcp0" tcp0 (bytes_of_hex h) (bytes_of_hex ex))
+    | "dec2", [a; b] when small a && small b ->
+      let ((t1, _), o1) = ex_dec "tcp0" tcp0 (bytes_of_hex a) [] in
+      (match o1 with Base.Panic _ -> () | _ -> ignore (ex_dec (coq_tcp t1) t1 (bytes_of_hex b) []))
+    | "ser", [h; fcd; pl; ph] when small h && small pl ->
+      let src = if h = "@" then Some !cur
+        else (let ((t, _), o) = decode tcp0 (bytes_of_hex h) [] in match o with Base.Panic _ -> None | _ -> Some t) in
+      (match src with
+       | Some t -> ignore (ex_ser t (bytes_of_hex pl) (fcd.[0] = '1') (fcd.[1] = '1') ph (fcd.[2] = '1'))
+       | None -> ())
+    | "rt", [h; pl; ph] when small h && small pl ->
+      let ((t, _), o) = ex_dec "tcp0" tcp0 (bytes_of_hex h) [] in
+      (match o with
+       | Base.Ok _ ->
+         (match ex_ser t (bytes_of_hex pl) true true ph false with
+          | (Base.Ok bytes, _) ->
+            let ((t2, _), o2) = ex_dec "tcp0" tcp0 bytes [] in
+            (match o2, parse_ph ph with
+             | Base.Panic _, _ | _, None -> ()
+             | _, Some phs ->
+               coq_example_named out (name ()) (Printf.sprintf "verify_csum %s %s" (coq_tcp t2) (coq_z phs)) (coq_pair coq_bool coq_z (verify_csum t2 phs)))
+          | _ -> ())
+       | _ -> ())
+    | _ -> ()) ops
+let registered_coq = Registry.register_coq "Ltcp" ("From GP Require Import Base LtcpModel.\n", to_coq)
